@@ -210,6 +210,8 @@ def r3_table(ctx, F):
     fields = sorted("self." + f["name"] for f in F.structs["passthrough::inode_store::InodeStore"]["fields"])
     ctx.check("R3-handle-table", "clear/inode-store", t == fields, "InodeStore::clear clears %s; the store's maps are %s" % (t, fields), loc=st.loc())
     release_toggles(ctx, F, "R3-handle-table")
+    from rules import c12
+    c12.vfs_destroy(ctx, F, "R3-handle-table")
 
     # directory-position records exist only in opendir mode: where no RELEASEDIR ever arrives (runtime no_opendir, which is not the
     # configured flag: init also sets it when the backend sits below a vfs), nothing would remove them again
